@@ -93,6 +93,17 @@ func (m *ExpirationManager) VerifStopTimers() {
 	m.nonexpiring.Range(stop)
 }
 
+// VerifCachedExpiry returns the expiry the manager has cached for a tracked lease (what
+// its timer was armed with).
+func (m *ExpirationManager) VerifCachedExpiry(leaseID string) (time.Time, bool) {
+	if raw, ok := m.pending.Load(leaseID); ok {
+		if pi, ok := raw.(pendingInfo); ok && pi.cachedLeaseInfo != nil {
+			return pi.cachedLeaseInfo.ExpireTime, true
+		}
+	}
+	return time.Time{}, false
+}
+
 // VerifRestoreDone reports whether the lease restore has finished.
 func (m *ExpirationManager) VerifRestoreDone() bool { return !m.inRestoreMode() }
 
